@@ -48,8 +48,32 @@ static struct reg regs[MAXREG];
 static int nreg;
 
 /* id domain */
-#define NWORD 6
-static const char *words[NWORD] = { "start", "stop", "step", "status", "s", "set_value" };
+#define NFIXW 9
+#define NRNDW 2
+#define NWORD (NFIXW + NRNDW)
+/* command words: ASCII, UTF-8 (bytes >= 0x80), raw high bytes; two more are generated per case */
+static const char *fixwords[NFIXW] = { "start", "stop", "step", "status", "s", "set_value",
+                                       "z\xc3\xa4hler", "gr\xc3\xb6\xc3\x9f" "e", "\x80\xff\xfe" };
+static char words[NWORD][24];
+static int word_conv[NWORD];    /* id computed with mpt_hash(word, -1) instead of mpt_hash(word, length) */
+static int word_high(int w)
+{
+	for (const char *c = words[w]; *c; c++) if (*c & 0x80) return 1;
+	return 0;
+}
+/* printable rendering */
+static const char *wshow(int w)
+{
+	static char buf[4][100];
+	static int turn;
+	char *o = buf[turn = (turn + 1) & 3], *st = o;
+	for (const unsigned char *c = (const unsigned char *) words[w]; *c; c++) {
+		if (*c < 0x80) *o++ = (char) *c;
+		else o += sprintf(o, "\\x%02x", *c);
+	}
+	*o = 0;
+	return st;
+}
 #define NMSGID 6
 static const uintptr_t msgids[NMSGID] = { 1, 2, 4 /* MessageCommand */, 7, 0xff, 0 };
 #define NBULK 40
@@ -61,6 +85,11 @@ static uintptr_t mdef;             /* model default id */
 
 static MPT_STRUCT(dispatch) disp;
 static int disp_live;
+
+/* ids reserved with mpt_command_reserve on the dispatcher's own table that are not part of the domain */
+#define MAXRSV 24
+static struct { uintptr_t id; struct reg *g; } rsv[MAXRSV];
+static int nrsv;
 
 /* expectation of the operation in progress */
 static struct reg *exp_reg;        /* registration that must receive the delivery (NULL: none of ours) */
@@ -89,6 +118,13 @@ static int dom_index(uintptr_t id)
 {
 	for (int i = 0; i < NDOM; i++) if (dom[i] == id) return i;
 	return -1;
+}
+static struct reg *find_live(uintptr_t id)
+{
+	int di = dom_index(id);
+	if (di >= 0) return model[di];
+	for (int i = 0; i < nrsv; i++) if (rsv[i].id == id) return rsv[i].g;
+	return 0;
 }
 static struct reg *new_reg(uintptr_t id)
 {
@@ -197,6 +233,12 @@ static void check_table(void)
 		} else {
 			VF_CHECK(c == 0, "model:table:stale-entry", "after %s: id %#" PRIxPTR " resolves to an entry (arg %p) although nothing is registered", cur_op, dom[i], c->arg);
 		}
+	}
+	for (int i = 0; i < nrsv; i++) {
+		MPT_STRUCT(command) *c = mpt_command_get(&disp._d, rsv[i].id);
+		VF_CHECK(c != 0, "model:table:registration-lost", "after %s: reserved id %#" PRIxPTR " (registration #%d) is not found in the table", cur_op, rsv[i].id, rsv[i].g->serial);
+		VF_CHECK(c->arg == rsv[i].g && c->cmd == (int (*)(void *, void *)) hnd, "model:table:wrong-entry",
+		         "after %s: reserved id %#" PRIxPTR " resolves to argument %p, model says registration #%d", cur_op, rsv[i].id, c->arg, rsv[i].g->serial);
 	}
 	vf_count("monitor:table-compared", 1);
 	VF_CHECK(disp._def == mdef, "model:default:bookkeeping", "after %s: dispatcher default id %#" PRIxPTR ", model %#" PRIxPTR, cur_op, disp._def, mdef);
@@ -366,7 +408,7 @@ static void after_delivery(const char *what, int ret)
 	}
 }
 /* word hash the way a registering caller computes it */
-static uintptr_t word_id(int w) { return mpt_hash(words[w], (int) strlen(words[w])); }
+static uintptr_t word_id(int w) { return word_conv[w] ? mpt_hash(words[w], -1) : mpt_hash(words[w], (int) strlen(words[w])); }
 
 /* set the expectation for a command message [Command, sep, text...] -> inner target */
 static int command_bytes(vf_rng *r, uint8_t *dst, int *word, int *sep)
@@ -411,6 +453,7 @@ static void op_emit(vf_rng *r, char *d, size_t dn)
 		di = (int) vf_below(r, vf_chance(r, 3, 4) ? NMSGID + NWORD : NDOM);
 		if (vf_chance(r, 3, 5)) { int k = pick_live(r, NDOM); if (k >= 0) di = k; }
 		id = dom[di];
+		if (nrsv && vf_chance(r, 1, 4)) { int k = (int) vf_below(r, (uint32_t) nrsv); id = rsv[k].id; di = -1; vf_count("emit:reserved-id", 1); }
 		ev.id = id;
 		snprintf(d, dn, " emit(id=%#" PRIxPTR ")", id);
 	} else if (form < 7) {
@@ -442,11 +485,11 @@ static void op_emit(vf_rng *r, char *d, size_t dn)
 		havemsg = 1;
 		ev.msg = &m.msg;
 		ev.id = 0x5a5a;
-		snprintf(d, dn, " emit(command \"%s\"%s)", words[w], m.parts > 1 ? " fragmented" : "");
+		snprintf(d, dn, " emit(command \"%s\"%s)", wshow(w), m.parts > 1 ? " fragmented" : "");
 	}
 	vf_fp_u64(0x500 + (uint64_t) form); vf_fp_u64((uint64_t) id); vf_fp(bytes, blen);
 
-	target = di >= 0 ? model[di] : 0;
+	target = di >= 0 ? model[di] : find_live(id);
 	if (form >= 7 && form < 9) {
 		/* default event */
 		vf_at("mpt_dispatch_emit");
@@ -565,22 +608,27 @@ static void op_hash(vf_rng *r, char *d, size_t dn)
 	target = model[wi] ? model[wi] : fb;
 	exp_reg = target; exp_id = word_id(w); exp_id_valid = 1; exp_msg = &m.msg; exp_msg_valid = 1;
 	vf_fp_u64(0x600); vf_fp(bytes, blen); vf_fp_u64((uint64_t) m.parts);
-	snprintf(d, dn, " hash(\"%s\" sep=%d%s)", words[w], sep, m.parts > 1 ? " fragmented" : "");
+	snprintf(d, dn, " hash(\"%s\" sep=%d%s%s)", wshow(w), sep, word_conv[w] ? " id=hash(word,-1)" : "", m.parts > 1 ? " fragmented" : "");
 	if (vf_logging) {
 		char hx[160];
 		vf_log("dispatch_hash: message %s in %d part(s) of %zu/%zu/%zu/%zu bytes, word \"%s\" id %#" PRIxPTR, vf_hex(hx, sizeof(hx), bytes, blen), m.parts,
-		       m.plen[0], m.plen[1], m.plen[2], m.plen[3], words[w], word_id(w));
+		       m.plen[0], m.plen[1], m.plen[2], m.plen[3], wshow(w), word_id(w));
 	}
 	vf_at("mpt_dispatch_hash");
 	vf_count("mpt_dispatch_hash", 1);
 	if (m.parts > 1) vf_count("hash:fragmented-message", 1);
+	if (word_high(w)) {
+		vf_count("hash:high-bit-word", 1);
+		if (m.parts > 1) vf_count("hash:high-bit-word-fragmented", 1);
+		if (model[wi]) vf_count(word_conv[w] ? "hash:high-bit-registered-terminated-form" : "hash:high-bit-registered-counted-form", 1);
+	}
 	ret = mpt_dispatch_hash(&disp, &ev);
-	vf_log("dispatch_hash(\"%s\", sep=%d, %d part(s)) = %d ev.id=%#" PRIxPTR, words[w], sep, m.parts, ret, ev.id);
+	vf_log("dispatch_hash(\"%s\", sep=%d, %d part(s)) = %d ev.id=%#" PRIxPTR, wshow(w), sep, m.parts, ret, ev.id);
 	if (!target) {
-		VF_CHECK(op_events == 0, "model:emit:unexpected-delivery", "hash dispatch of unregistered command \"%s\" delivered to a harness handler", words[w]);
+		VF_CHECK(op_events == 0, "model:emit:unexpected-delivery", "hash dispatch of unregistered command \"%s\" delivered to a harness handler", wshow(w));
 		vf_count("hash:library-fallback", 1);
 	} else {
-		VF_CHECK(op_events == 1, "model:hash:no-delivery", "hash dispatch of \"%s\" (id %#" PRIxPTR ") reached no handler, model says #%d%s", words[w], word_id(w), target->serial,
+		VF_CHECK(op_events == 1, "model:hash:no-delivery", "hash dispatch of \"%s\" (id %#" PRIxPTR ") reached no handler, model says #%d%s", wshow(w), word_id(w), target->serial,
 		         target->fallback ? " (fallback)" : "");
 		vf_count(target->fallback ? "hash:delivered-fallback" : "hash:delivered-registered", 1);
 		if (last_ret >= 0) {
@@ -687,6 +735,67 @@ static void op_release(vf_rng *r, char *d, size_t dn)
 	check_wait();
 }
 
+/* mpt_command_reserve on the dispatcher's own table (what dispatch::reserve() of the C++ layer does) */
+static int op_reserve_own(vf_rng *r, char *d, size_t dn)
+{
+	size_t width = 1 + vf_below(r, 8);
+	MPT_STRUCT(command) *c;
+	struct reg *g;
+	uintptr_t wmax = width >= 8 ? (uintptr_t) INT64_MAX : ((uintptr_t) 1 << (8 * width - 1)) - 1;
+	int di, empty = disp._d._buf == 0;
+
+	begin_op("command_reserve(dispatcher table)");
+	vf_fp_u64(0xa00 + width);
+	vf_at("mpt_command_reserve");
+	vf_count("mpt_command_reserve(dispatcher table)", 1);
+	c = mpt_command_reserve(&disp._d, width);
+	vf_log("command_reserve(dispatcher table%s, width=%zu) = %p id=%#" PRIxPTR, empty ? " [empty]" : "", width, (void *) c, c ? c->id : 0);
+	snprintf(d, dn, " reserve-own(%zu)%s%s", width, empty ? "[first]" : "", c ? "" : "!");
+	VF_CHECK(op_events == 0 && op_fins == 0, "model:reserve:handler-invoked", "command_reserve on the dispatcher table invoked a handler");
+	if (!c) {
+		vf_count("reserve-own:refused", 1);
+		check_table();
+		return 0;
+	}
+	vf_count("monitor:reserved-id-unique", 1);
+	VF_CHECK(c->id != 0, "model:reserve:zero-id", "command_reserve(width=%zu) on the dispatcher table returned id 0", width);
+	VF_CHECK(!find_live(c->id), "model:reserve:duplicate-id", "command_reserve(width=%zu) on the dispatcher table returned id %#" PRIxPTR " which registration #%d holds",
+	         width, c->id, find_live(c->id) ? find_live(c->id)->serial : -1);
+	VF_CHECK(c->id <= wmax, "model:reserve:id-exceeds-width", "command_reserve(width=%zu) returned id %#" PRIxPTR ", largest id of that width is %#" PRIxPTR, width, c->id, wmax);
+	VF_CHECK(c->cmd != 0, "model:reserve:inactive", "command_reserve returned an entry without handler");
+	di = dom_index(c->id);
+	if ((di < 0 && nrsv >= MAXRSV) || !(g = new_reg(c->id))) {
+		c->cmd = 0;     /* given back by the owner */
+		check_table();
+		return 0;
+	}
+	g->state = RegLive;
+	c->cmd = (int (*)(void *, void *)) hnd;
+	c->arg = g;
+	if (di >= 0) model[di] = g;
+	else { rsv[nrsv].id = c->id; rsv[nrsv].g = g; nrsv++; }
+	vf_count(empty ? "reserve-own:first-table-operation" : "reserve-own:accepted", 1);
+	check_table();
+	return empty ? 2 : 1;
+}
+static void op_clear_rsv(vf_rng *r, char *d, size_t dn)
+{
+	int k = (int) vf_below(r, (uint32_t) nrsv), ret;
+	begin_op("dispatch_clear(reserved id)");
+	rsv[k].g->fin_allowed = 1;
+	vf_fp_u64(0xb00 + (uint64_t) k);
+	vf_at("mpt_dispatch_set");
+	vf_count("mpt_dispatch_set(clear)", 1);
+	ret = mpt_dispatch_set(&disp, rsv[k].id, 0, 0);
+	vf_log("dispatch_set(reserved id=%#" PRIxPTR ", NULL) = %d", rsv[k].id, ret);
+	snprintf(d, dn, " clear(%#" PRIxPTR ")", rsv[k].id);
+	VF_CHECK(ret >= 0, "model:clear:refused", "clearing reserved id %#" PRIxPTR " returned %d", rsv[k].id, ret);
+	check_fins(1);
+	rsv[k] = rsv[--nrsv];
+	vf_count("reserve-own:cleared", 1);
+	check_table();
+}
+
 /* ------------------------------------------------------------------ case */
 static void install_fallback(void)
 {
@@ -711,6 +820,7 @@ static void do_fini(void)
 	VF_CHECK(op_events == 0, "model:emit:unexpected-delivery", "dispatch_fini delivered an event");
 	check_fins(want);
 	memset(model, 0, sizeof(model));
+	nrsv = 0;
 	fb = 0; mdef = 0;
 	disp_live = 0;
 }
@@ -721,6 +831,7 @@ static void do_init(vf_rng *r)
 	memset(&disp, 0xEE, sizeof(disp));
 	mpt_dispatch_init(&disp);
 	disp_live = 1;
+	nrsv = 0;
 	memset(model, 0, sizeof(model));
 	fb = 0; mdef = 0;
 	if (!vf_chance(r, 1, 5)) install_fallback();
@@ -729,14 +840,19 @@ static void do_init(vf_rng *r)
 static void case_dispatch(vf_rng *r)
 {
 	int nops = vf_range(r, 10, vf_thorough ? 120 : 70);
-	char desc[1900], one[96];
+	char desc[1900], one[160];
 	size_t dl = 0;
-	int grew = 0, reused = 0, emits = 0, maxlive = 0, hadfree = 0;
+	int grew = 0, reused = 0, emits = 0, maxlive = 0, hadfree = 0, rawtable = 0;
 
 	nreg = 0;
 	do_init(r);
 	dl += (size_t) snprintf(desc, sizeof(desc), "fallback=%s:", fb ? "harness" : "library");
 	vf_fp_u64(fb ? 1 : 0);
+	/* a dispatcher whose table is created by a reservation (raw table) */
+	if (vf_chance(r, 1, 4)) {
+		if (op_reserve_own(r, one, sizeof(one)) == 2) rawtable = 1;
+		dl += (size_t) snprintf(desc + dl, sizeof(desc) - dl, "%s", one);
+	}
 	for (int i = 0; i < nops && nreg < MAXREG - 4; i++) {
 		uint32_t c = vf_below(r, 100);
 		int di, nl = 0;
@@ -757,12 +873,24 @@ static void case_dispatch(vf_rng *r)
 			op_replace(r, di, vf_chance(r, 1, 6), one, sizeof(one));
 		} else if (c < 85) {
 			op_emit(r, one, sizeof(one)); emits++;
-		} else if (c < 98) {
+		} else if (c < 94) {
 			op_hash(r, one, sizeof(one)); emits++;
+		} else if (c < 97 || (c < 98 && !nrsv)) {
+			if (op_reserve_own(r, one, sizeof(one)) == 2) rawtable = 1;
+		} else if (c < 98) {
+			op_clear_rsv(r, one, sizeof(one));
 		} else {
+			int live = 0;
+			for (int k = 0; k < nreg; k++) live += regs[k].state == RegLive && !regs[k].fallback;
+			if (rawtable && live) vf_count("fini:reserve-created-table-with-live-handlers", 1);
 			do_fini();
 			do_init(r);
+			rawtable = 0;
 			snprintf(one, sizeof(one), " fini+init(fallback=%s)", fb ? "harness" : "library");
+			if (vf_chance(r, 1, 4)) {
+				size_t ol = strlen(one);
+				if (op_reserve_own(r, one + ol, sizeof(one) - ol) == 2) rawtable = 1;
+			}
 			hadfree = 0;
 		}
 		nl = 0;
@@ -770,6 +898,11 @@ static void case_dispatch(vf_rng *r)
 		if (nl > maxlive) maxlive = nl;
 		if (nl > 2) grew = 1;
 		if (dl + strlen(one) + 2 < sizeof(desc)) { memcpy(desc + dl, one, strlen(one) + 1); dl += strlen(one); }
+	}
+	{
+		int live = 0;
+		for (int k = 0; k < nreg; k++) live += regs[k].state == RegLive && !regs[k].fallback;
+		if (rawtable && live) vf_count("fini:reserve-created-table-with-live-handlers", 1);
 	}
 	do_fini();
 	/* every registration that ever became live ended exactly once */
@@ -838,6 +971,59 @@ static void case_reserve(vf_rng *r)
 	vf_sample("%s clear  => %d reservations%s", desc, nres, wrapped ? ", ids wrapped around the width" : "");
 }
 
+/* per case: two generated words with bytes 0x80..0xff, length convention of every word's id, and the direct
+ * comparison of the two length conventions of the hash */
+static void check_hash_forms(const char *str)
+{
+	int len = (int) strlen(str);
+	uintptr_t a, b;
+	char hx[80];
+	vf_at("mpt_hash_djb2");
+	vf_count("mpt_hash_djb2", 2);
+	a = mpt_hash_djb2(str, -1);
+	b = mpt_hash_djb2(str, len);
+	vf_count("monitor:hash-forms-compared", 1);
+	VF_CHECK(a == b, "model:hash:length-convention", "mpt_hash_djb2(bytes %s, -1) = %#" PRIxPTR " but mpt_hash_djb2(same, %d) = %#" PRIxPTR,
+	         vf_hex(hx, sizeof(hx), str, (size_t) len), a, len, b);
+	vf_at("mpt_hash");
+	vf_count("mpt_hash", 2);
+	a = mpt_hash(str, -1);
+	b = mpt_hash(str, len);
+	VF_CHECK(a == b, "model:hash:length-convention", "mpt_hash(bytes %s, -1) = %#" PRIxPTR " but mpt_hash(same, %d) = %#" PRIxPTR,
+	         vf_hex(hx, sizeof(hx), str, (size_t) len), a, len, b);
+}
+static void make_words(vf_rng *r)
+{
+	for (int i = 0; i < NFIXW; i++) strcpy(words[i], fixwords[i]);
+	for (int i = NFIXW; i < NWORD; i++) {
+		int again;
+		do {
+			int len = 2 + (int) vf_below(r, 9), high = 0;
+			for (int k = 0; k < len; k++) {
+				unsigned c = vf_chance(r, 2, 3) ? 0x80 + vf_below(r, 0x80) : (unsigned) "abcxyz_019"[vf_below(r, 10)];
+				if (c & 0x80) high = 1;
+				words[i][k] = (char) c;
+			}
+			words[i][len] = 0;
+			again = !high;
+			for (int k = 0; k < i; k++) if (!strcmp(words[k], words[i])) again = 1;
+		} while (again);
+	}
+	for (int i = 0; i < NWORD; i++) {
+		word_conv[i] = vf_chance(r, 1, 2);
+		check_hash_forms(words[i]);
+		if (word_high(i)) vf_count("monitor:hash-forms-high-bit", 1);
+	}
+	/* a few more strings: any bytes except NUL */
+	for (int i = 0; i < 3; i++) {
+		char tmp[40];
+		int len = (int) vf_below(r, 33);
+		for (int k = 0; k < len; k++) tmp[k] = (char) (1 + vf_below(r, 255));
+		tmp[len] = 0;
+		check_hash_forms(tmp);
+	}
+}
+
 uint64_t vf_cases(void) { return vf_thorough ? 1000000 : 100000; }
 
 void vf_case(uint64_t idx, vf_rng *r)
@@ -845,6 +1031,7 @@ void vf_case(uint64_t idx, vf_rng *r)
 	/* id domain (hashes come from the library's own hash function, as for a registering caller) */
 	int n = 0;
 	for (int i = 0; i < NMSGID; i++) dom[n++] = msgids[i];
+	make_words(r);
 	for (int i = 0; i < NWORD; i++) dom[n++] = word_id(i);
 	for (int i = 0; i < NBULK; i++) dom[n++] = 0x1000 + (uintptr_t) i * 3;
 	if (idx % 8 == 7) case_reserve(r);
